@@ -374,7 +374,11 @@ def c09_random_configs():
             Config("p4", ("A", "B"), {"s1": [stmt("ins", "A", {7}), stmt("del", "A", {1, 3, 7})],
                                       "s2": [stmt("ins", "A", {8}), stmt("sel", "A")]}, A),
             Config("p3", ("A", "B"), {"s1": [stmt("del", "A", {1, 3})], "s2": [stmt("ins", "A", {8}), stmt("del", "B", {6})]},
-                   {"A": [{1, 2}, {3}], "B": [{4}, {5}, {6}]}, passes=2)]
+                   {"A": [{1, 2}, {3}], "B": [{4}, {5}, {6}]}, passes=2),
+            # several DELETE statements on one row-set (one delete vector each) before / while it is compacted
+            Config("p5", ("A", "B"), {"s1": [stmt("del", "A", {1}), stmt("del", "A", {3})],
+                                      "s2": [stmt("del", "A", {2}), stmt("sel", "A")]},
+                   {"A": [{1, 2, 3, 9}, {4}], "B": [{5}, {6}]}, passes=2)]
 
 
 def check_c09(args):
